@@ -33,7 +33,7 @@ ASSUMPTIONS = [
     "bounded to the listed families; benchmark instances (thorough) are a fixed list, not a space",
 ]
 BOUNDS = {
-    "quick": "solve: K3 NF complete (942) + K4 NF complete (9072) + NF probes; model enumeration + all optimal assignments: K3 NF complete (total duration <= 6); history: all ordered pairs of a 10-instance pool; errors: ft06 with 1e-9 s limit",
+    "quick": "solve: K3 NF complete (942) + K4 NF complete (9072) + 4 shapes x 2 machines x durations {0,2,3} (5184) + 2 shapes x 3 machines x durations {0,1,3} (13122) + shapes (3,1,1),(1,3,1) x 2 machines x durations {0,1,2} (15552) + NF probes; model enumeration + all optimal assignments: K3 NF complete (total duration <= 6); history: all ordered pairs of a 10-instance pool; errors: ft06 with 1e-9 s limit",
     "thorough": "solve: K3 NF, K4 NF, NF5[seed%8::8]; model/choices: K3 NF complete (total duration <= 6); history: all ordered triples of the pool; benchmarks ft06, la01-la05 against recorded optima",
 }
 
@@ -57,6 +57,14 @@ def cases(tier, seed):
         out.append(("solve", s))
     k4 = F.K4_nf()
     for s in k4:
+        out.append(("solve", s))
+    # longer durations next to zero durations, and three machines
+    for s in F.family([(2, 1, 1), (1, 2, 1), (1, 1, 2), (2, 2)], F.MS_NF2, (0, 2, 3)):
+        out.append(("solve", s))
+    for s in F.family([(2, 1, 1), (1, 2, 1)], F.MS_NF3, (0, 1, 3)):
+        out.append(("solve", s))
+    # five operations: a 3-operation job between two single-operation jobs
+    for s in F.family([(3, 1, 1), (1, 3, 1)], F.MS_NF2, (0, 1, 2)):
         out.append(("solve", s))
     for s in F.P_ALL:
         if not F.is_flexible(s):
